@@ -1,7 +1,7 @@
 (* Html/EndTag.v — end tags are faithful: only the ASCII case of the tag name changes, and Text() carries no
    trailing whitespace. *)
 From Verif Require Import Common.Base Common.Tactics Common.Lx Gen.Tables Html.Model Html.Lemmas Html.ListLemmas
-     Html.Hash Html.Safety Html.Step Html.Spec Html.RawText Html.Func Html.Proofs Html.Template Html.Wf Html.WfDoc.
+     Html.Hash Html.Safety Html.Step Html.Spec Html.RawText Html.Func Html.Proofs Html.Views.
 From Coq Require Import ZifyBool.
 
 (* ---- the trimmed length ---------------------------------------------------------------------------------------------- *)
